@@ -58,7 +58,7 @@ def run(ctx):
     if info is not None:
         ctx.extra["z0_port_test_strict"] = info["z0"]
         ctx.extra["add_common_prevalidates"] = info["add_common_prevalidates"]
-        ok, res = ctx.coq_obligations(["Err/ContractProofs.v", "Err/ContractProofs2.v", "Properties_C11.v"])
+        ok, res = ctx.coq_obligations(["Err/ContractProofs.v", "Err/ContractProofs2.v", "Err/NewProofs.v", "Properties_C11.v"])
         if not ok:
             log = getattr(ctx, "_last_coq_log", "")
             m = re.search(r'File "\./([^"]+)", line (\d+)', log)
@@ -79,6 +79,7 @@ def run(ctx):
         drv = fresh_driver(ctx, info, broken)
         if drv is not None:
             cat.model_tie(ctx, runner, drv, broken)
+            cat.model_tie2(ctx, runner, drv, broken)
 
     # ------------------------------------------------------------------ 4. catalogue
     cat.run_catalogue(ctx, runner)
